@@ -92,7 +92,10 @@ Record fixes := mkfx {
 Definition no_fixes := mkfx false false false false false false false false false.
 Definition all_fixes := mkfx true true true true true true true true true.
 (* the switches that are ON in the repository as it stands: defects repaired by `fix:` commits
-   (D1 shift promotion, D13 comparison/?: promotion, D14 compound assignment conversion, D7 rejection) *)
+   (D1 shift promotion, D13 comparison/?: promotion, D14 compound assignment conversion, D7 rejection).
+   D3 (fill bit of a widening cast) is repaired in the repository as well; it is not expressed by a switch: OpTables.cast_il_exec IS the
+   repaired rule, with the code's exception for non-negative constants (Lower.nonneg_const); the switch fx_cast_fill only removes that
+   exception (the all_fixes model sign-fills every widening cast of a signed source) *)
 Definition faithful := mkfx false true false true true false false false true.
 
 Record config := mkcfg {
